@@ -53,23 +53,35 @@ type String string
 // ParseString parses the input string and replaces FHIRPath
 // escape sequences with their Go-equivalent escape characters.
 func ParseString(input string) (String, error) {
-	escSequences := []string{
-		"\\'", "'",
-		"\\\"", "\"",
-		"\\`", "`",
-		"\\r", "\r",
-		"\\t", "\t",
-		"\\n", "\n",
-		"\\f", "\f",
-		"\\\\", "\\",
-		"\\", "",
-		// TODO PHP-5581
-	}
 	input = strings.TrimPrefix(input, "'")
 	input = strings.TrimSuffix(input, "'")
-	replacer := strings.NewReplacer(escSequences...)
-	escapedString := replacer.Replace(input)
-	return String(escapedString), nil
+	simple := map[byte]byte{'\'': '\'', '"': '"', '`': '`', 'r': '\r', 't': '\t', 'n': '\n', 'f': '\f', '\\': '\\', '/': '/'}
+	var escaped strings.Builder
+	for i := 0; i < len(input); i++ {
+		if input[i] != '\\' {
+			escaped.WriteByte(input[i])
+			continue
+		}
+		if i+1 == len(input) {
+			break // a lone trailing backslash is dropped
+		}
+		i++
+		if replacement, ok := simple[input[i]]; ok {
+			escaped.WriteByte(replacement)
+			continue
+		}
+		// \uXXXX: a Unicode code point in four hexadecimal digits.
+		if input[i] == 'u' && i+4 < len(input) {
+			if codePoint, err := strconv.ParseUint(input[i+1:i+5], 16, 32); err == nil {
+				escaped.WriteRune(rune(codePoint))
+				i += 4
+				continue
+			}
+		}
+		// Any other escaped character stands for itself.
+		escaped.WriteByte(input[i])
+	}
+	return String(escaped.String()), nil
 }
 
 // Equal returns true if the input value is a System String,
